@@ -110,7 +110,8 @@ def run(c: Check):
 
     bad = validate(c, "c02_flt", flt) + validate(c, "c02_full", full)
 
-    # ---- vacuity accounting
+    # ---- vacuity accounting (a verdict from the real code outranks it: see the end)
+    vac = []
     kinds = {}
     for e in flt + full:
         o = e["req"]
@@ -124,12 +125,12 @@ def run(c: Check):
            [("modreq", s) for s in ("dangerous", "adult", "ssgen", "ssyt", "newreg")]
     miss = [k for k in need if kinds.get(k, 0) < 5]
     if miss:
-        raise Undecided("vacuous: request verdict kinds (almost) never observed: %s (seen %s)" % (miss, kinds))
+        vac.append("vacuous: request verdict kinds (almost) never observed: %s (seen %s)" % (miss, kinds))
     rk = {}
     for e in flt + full:
         rk[e["resp"]["type"]] = rk.get(e["resp"]["type"], 0) + 1
     if min(rk.get("blocked", 0), rk.get("allowed", 0), rk.get("none", 0)) < 20:
-        raise Undecided("vacuous: response verdict kinds %s" % rk)
+        vac.append("vacuous: response verdict kinds %s" % rk)
     shapes = set()
     n_dis = n_leak_checked = 0
     for e in full:
@@ -142,10 +143,10 @@ def run(c: Check):
         if not m["written"] and not m["err"]:
             raise Undecided("harness: no message and no error on line %d" % e["id"])
     if len(shapes) < 20:
-        raise Undecided("vacuous: only %d of 20 (blocking mode x qtype) classes produced a blocked answer: %s" % (
+        vac.append("vacuous: only %d of 20 (blocking mode x qtype) classes produced a blocked answer: %s" % (
             len(shapes), sorted(shapes)))
     if n_dis < 100:
-        raise Undecided("vacuous: only %d queries with filtering disabled for the profile or device" % n_dis)
+        vac.append("vacuous: only %d queries with filtering disabled for the profile or device" % n_dis)
     svec = {vec_key(e["v"]) for e in flt}
     c.notes.append("filter-level lines %d (%d distinct abstract vectors), full-stack lines %d (%d blocked answers over "
                    "all 20 mode x qtype classes, %d with filtering disabled); request verdict kinds %s; response "
@@ -171,6 +172,8 @@ def run(c: Check):
         c.violation({"kind": "nonconf", "h": e["h"], "vec": vec_key(e["v"]), "mode": e["mode"], "qt": e["qt"],
                      "ups": e["ups"], "reason": (first[0] if first else reasons)[:80]},
                     describe(e, reasons), e)
+    if vac and not bad:
+        raise Undecided("; ".join(vac))
     c.assumptions += [
         "the concretiser's rule templates (||h^, |h^, @@, $dnstype=T / ~T, $dnsrewrite=IP / NOERROR;A;IP / name / "
         "NOERROR;CNAME;name / REFUSED|NXDOMAIN|SERVFAIL, 'IP h' hosts lines, regex) have the meaning documented for the "
